@@ -7,7 +7,10 @@ PROGS2 = ['swp0:0,swp0:0;acq0:0,tch0,cpy0:1,rst0,tch1',
           'swp0:0,swp0:0;acqe0:0,tch0,acq0:1,tch1',
           'rgn1,acq0:0,tch0,rgn0;swp0:0,swp0:0',
           'acq0:0,mov0:1,tch1,swg1:2,tch2;swp0:0,swp0:1',
-          'swp0:0,acq0:1,tch1;swp0:0,acq0:1,tch1']
+          'swp0:0,acq0:1,tch1;swp0:0,acq0:1,tch1',
+          # many guards acquired in pairwise different eras / epochs while another thread retires what they protect (dynamic slot growth)
+          'acq0:0,swp1:1,acq2:2,swp3:3,acq3:3,tch0,tch2,tch3,acq1:1,tch1;swp0:0,swp2:2,swp3:3',
+          'swp3:3,acq0:0,swp3:3,acq1:1,swp3:3,acq2:2,swp3:2,acq3:3,tch0,tch1,tch3;swp0:0,swp1:1,swp0:0']
 PROGS3 = ['swp0:0;swp0:0;acq0:0,tch0,cpy0:1,rst0,tch1',
           'swp0:0,swp0:0;acq0:0,tch0;acqe0:0,tch0',
           'rgn1,acq0:0,acq0:1,rgn0;swp0:0;swp0:1,swp0:0']
